@@ -144,7 +144,8 @@ class FakeBody:
         return self._E(t, q, np.zeros(self.nu))
 
     def step_callback(self, t, q, u):
-        return q, u
+        # a deterministic, non-idempotent, order-sensitive map (like a normalisation followed by a clipping)
+        return q + 0.25 * np.sin(q + t), 0.5 * u + 0.125
 
 
 class FakeCoupler:
@@ -265,6 +266,11 @@ class FakeCoupler:
             for name_, f in fs.items():
                 setattr(self, name_, (lambda f: lambda *a: f(*a))(f))
 
+        if "step" in fam:
+            # a contribution that post-processes the coordinates of the bodies it couples (it sees what their own
+            # callbacks left, because callbacks run in registration order)
+            self.step_callback = lambda t, q, u: (q * q + 0.5, u - 0.25 * np.cos(u))
+
     def assembler_callback(self):
         self.qDOF = np.concatenate([s.qDOF for s in self.subs]) if self.subs else np.array([], dtype=int)
         self.uDOF = np.concatenate([s.uDOF for s in self.subs]) if self.subs else np.array([], dtype=int)
@@ -368,6 +374,8 @@ def _gen_fakes(rng, n_bodies_real):
                 fam[key] = int(rng.integers(1, 3)) if key != "h" else 1
         if rng.random() < 0.5:
             fam["F"] = 2
+        if rng.random() < 0.4:
+            fam["step"] = 1
         if not fam:
             fam["gamma"] = 1
         spec = {"fake": "coupler", "subs": subs, "families": fam, "seed": int(rng.integers(1, 10**6)), "ntau": int(rng.integers(1, 3))}
@@ -627,6 +635,31 @@ def _methods(S):
     Uu = lambda R, c: u[R.u(c)]
     UD = lambda R, c: ud[R.u(c)]
 
+    # step callback: the contributions' callbacks applied one after another in registration order, each on the
+    # state the previous ones left
+    def ref_step(R):
+        qq, uu = q.copy(), u.copy()
+        for c in R.cs:
+            if _has(c, "step_callback"):
+                qq[R.q(c)], uu[R.u(c)] = c.step_callback(t, qq[R.q(c)], uu[R.u(c)])
+        return np.concatenate([qq, uu])
+
+    def keeping_state(f, contribs):
+        """step callbacks may update internal state (Sphere2Sphere's reference contact basis): the evaluation of the
+        harness must not change the system under test"""
+        saved = [(c, c.reference_contact_basis.copy()) for c in contribs if hasattr(c, "reference_contact_basis")]
+        try:
+            return f()
+        finally:
+            for c, basis in saved:
+                c.reference_contact_basis = basis
+                for nm in ("t1t2_cache", "t1t2_q1_q2_cache"):
+                    if hasattr(c, nm):
+                        getattr(c, nm).clear()
+
+    ref_step0 = ref_step
+    ref_step = lambda R: keeping_state(lambda: ref_step0(R), R.cs)
+    M["step_callback"] = (lambda s: keeping_state(lambda: np.concatenate(s.step_callback(t, q.copy(), u.copy())), s.contributions), ref_step)
     # kinematics
     V("q_dot", lambda s: s.q_dot(t, q, u), "nq", "q_dot", lambda R, c: c.q_dot(t, Q(R, c), Uu(R, c)))
     X("q_dot_q", lambda s: s.q_dot_q(t, q, u).toarray(), "myq", "q", "q_dot_q", lambda R, c: c.q_dot_q(t, Q(R, c), Uu(R, c)))
